@@ -421,7 +421,17 @@ func (c *capture) GoString() string { return "capture{}" }
 func (c *capture) Parse(ctx *parseContext, parent reflect.Value) (out []reflect.Value, err error) {
 	defer ctx.printTrace(c)()
 	start := ctx.RawCursor()
+	outer := ctx.firstMatch
+	ctx.firstMatch = -1
 	v, err := c.node.Parse(ctx, parent)
+	if ctx.firstMatch >= 0 {
+		// The captured tokens start at the first token that was matched, not at the
+		// elided tokens that were skipped in front of it.
+		start = ctx.firstMatch
+	}
+	if outer >= 0 {
+		ctx.firstMatch = outer
+	}
 	if v != nil {
 		ctx.Defer(ctx.Range(start, ctx.RawCursor()), parent, c.field, v)
 	}
